@@ -18,6 +18,7 @@ import GocoinV.Proofs.C15Bch2
 import GocoinV.Proofs.C15Bch3
 import GocoinV.Proofs.C15Reuse
 import GocoinV.Proofs.C15Sched
+import GocoinV.Proofs.C15Str2
 namespace GocoinV.Props.C15
 open GocoinV Bech32
 
@@ -629,6 +630,58 @@ theorem shared_remainder_not_schedule_independent :
       (Base58Sched.alone (Base58Sched.Th.ofNat 1) 2).out = [Base58.digitChar 1] ∧
       Base58.digitChar 2 ≠ Base58.digitChar 1 := by decide
 
+/-- SOURCE FACTS (regenerated on every run by go/cmd/gen_c15/strloop.go, same call closure as
+    `codec_writes_no_package_state`): the codec reads a typed string BYTE BY BYTE. Nowhere in the closure is a code
+    point taken from a string (value variable of a `range` over a string or `[]rune`, result of `utf8.DecodeRune*`,
+    element of a `[]rune`) converted to an 8/16-bit integer, masked or reduced modulo a small constant; and the only
+    code-point-aware library call is `strings.ToLower` on the 3-byte prefix in `NewAddrFromString` (no `EqualFold`,
+    `ToUpper`, `Map`, `TrimSpace`, `unicode.*`, `utf8.*` on the typed text). All models of C15 take a Go string as the
+    list of its bytes; these two lists are what makes that reading the code's. -/
+theorem codec_reads_typed_strings_bytewise :
+    Gen.C15Str.runeNarrowings = [] ∧ Gen.C15Str.unicodeCalls = ["btc.NewAddrFromString: strings.ToLower"] := by
+  decide
+
+/-- The digit loop of `Decodeb58` AS IT IS WRITTEN (`Base58Str.decodeSrc`: a `range` over the string visits the first
+    byte of every UTF-8 code point, an invalid byte being a code point of width 1 — `Gen.C15Str.b58DecodeRangesString`;
+    what is looked up there — `Gen.C15Str.b58DecodeLookup`: the byte `s[i]`) computes, for EVERY byte string, exactly
+    the bytewise `Base58.decode` that all Base58 / address / WIF theorems of this file are about: the bytes `range`
+    skips follow a first byte ≥ 0xC2, which is in no alphabet. False as soon as the loop looks up the code point
+    narrowed to a byte (lookup = 1). -/
+theorem b58_decode_as_written_is_bytewise (s : Bytes) : Base58Str.decodeSrc s = Base58.decode s := by
+  have hl : Gen.C15Str.b58DecodeLookup ≠ 1 := by decide
+  exact Base58Str.decodeGo_eq _ _ hl s
+
+/-- "AN INVALID CHARACTER … IS REFUSED", for every character outside ASCII in whatever encoding: a typed string with a
+    byte ≥ 0x80 — any UTF-8 encoded code point ≥ U+0080 (letters of other scripts, full-width forms, KELVIN SIGN, code
+    points congruent to an alphabet letter modulo 256 or 128, zero-width characters), any over-long or invalid
+    sequence — is refused by `Decodeb58` (bytewise model and the loop as written), `bech32.Decode`, `SegwitDecode`
+    (for any expected hrp), `NewAddrFromString` and `DecodePrivateAddr`. -/
+theorem nonascii_refused (H : Addr.Hashes) (C : WalletCrypto) (hrp s : Bytes) (h : ∃ c ∈ s, 128 ≤ c.toNat) :
+    Base58.decode s = none ∧ Base58Str.decodeSrc s = none ∧ Bech32.decode s = none ∧
+    Bech32.segwitDecode hrp s = .error .decode ∧
+    (Addr.fromString H s = .error .short ∨ Addr.fromString H s = .error (.segwit .decode) ∨
+      Addr.fromString H s = .error .b58decode) ∧
+    AddrWif.decode C s = .error .b58 :=
+  ⟨Base58Str.decode_hi s h, by rw [b58_decode_as_written_is_bytewise]; exact Base58Str.decode_hi s h,
+   Bech32.decode_hi s h, Bech32.segwitDecode_hi hrp s h, Addr.fromString_hi H s h, AddrWif.decode_hi C s h⟩
+
+/-- non-vacuity: "1" followed by U+0146 (UTF-8 c5 86; 0x46 = 'F') satisfies the hypothesis -/
+example : ∃ c ∈ ([0x31, 0xc5, 0x86] : Bytes), 128 ≤ c.toNat := ⟨0xc5, by simp, by decide⟩
+
+/-- The fact `b58DecodeLookup ≠ 1` is needed: in the variant "for _, c := range s { … b58chr2int(byte(c)) … }" (the
+    idiomatic-looking rewrite, identical on ASCII) the two bytes c4 b2 — U+0132, whose low 8 bits are 0x32 = '2' —
+    decode to the payload 01 that the string "2" denotes, while the bytewise decoder refuses them. -/
+theorem rune_narrowing_accepts_nonalphabet :
+    Base58Str.decodeGo true 1 [0xc4, 0xb2] = some [1] ∧ Base58.decode [0x32] = some [1] ∧
+    Base58.decode [0xc4, 0xb2] = none := by
+  have hv : Base58Str.valueGo true 1 [0xc4, 0xb2] = some 1 := by decide +kernel
+  have hw : Base58.value? [0x32] 0 = some 1 := by decide +kernel
+  have hn : Base58.natBytes 1 = [1] := by
+    rw [Base58.natBytes]; simp; rw [Base58.natBytes]; simp
+  refine ⟨?_, ?_, Base58Str.decode_hi _ ⟨0xc4, by simp, by decide⟩⟩
+  · unfold Base58Str.decodeGo; rw [hv]; simp only [hn]; decide +kernel
+  · unfold Base58.decode; rw [hw]; simp only [hn]; decide +kernel
+
 /-
   -- OPEN: error detection for FOUR substitutions (BIP173's "up to 4"). Full statement:
   --   `bech32_detects_le3_substitutions` with `≤ 4` in place of `≤ 3`. Exact reduction (same lemmas as weight 3:
@@ -660,6 +713,11 @@ theorem shared_remainder_not_schedule_independent :
   --   source, not a semantics of Go's memory model) plus the harness stream `conc` (2..16 goroutines, each on its own
   --   inputs, every result compared with the reference). Hashing (sha256/ripemd160 objects are created per call) and
   --   the key derivation behind NewPrivateAddr (secp256k1 tables, C08/C14) are outside the analysed closure.
+  -- CORRESPONDENCE ONLY (typed strings outside ASCII): `strings.ToLower(hs[:3])` in NewAddrFromString is modelled as ASCII
+  --   lower-casing of three bytes (Unicode's ToLower of a 3-byte string with a byte ≥ 0x80 never yields "bc1"/"tb1":
+  --   invalid bytes become U+FFFD, and no 2-byte code point plus one ASCII byte lower-cases to three ASCII bytes); the
+  --   UTF-8 decoder `Base58Str.decodeRune` is tied to Go's `range` by oracle op `runes`; both are exercised by the harness
+  --   stream unicode.go (aliases of alphabet characters in every family, at every decoder), not proved of Go.
   -- (CLOSED: finding `wif-flag-byte-unchecked` — WIF decode → re-encode was false of the code for a 38-byte payload
   --   whose flag byte is not 01; fixed in lib/btc/wallet.go, now `wif_flag_byte_refused` / `wif_encode_decode`.)
 -/
